@@ -226,6 +226,6 @@ def obligations(tier):
             mvlo, mvhi = (0, len(MV_POOL) - 1) if ci in FILE_CONFIGS else (-99, 99)
             for lo in range(0, n, chunk):
                 obs.append(Ob("ob_step", dict(config=ci, op=op, lo=lo, hi=min(n, lo + chunk), mvlo=mvlo, mvhi=mvhi), timeout=200 if q else 1200, per_path=30,
-                              bounds="config=%s, op=%s; well-formed (pre-state, key) scenarios %d..%d of %d over %d valid pre-states x 6 keys; payload length 0..2, metadata int %d..%d, %d tags (store ops)" % (
+                              bounds="config=%s, op=%s; well-formed (pre-state, key) scenarios %d..%d of %d over %d valid pre-states x 7 keys; payload length 0..2, metadata int %d..%d, %d tags (store ops)" % (
                                   CONFIGS[ci], OPS[op], lo, min(n, lo + chunk), n, len(sl.VALID), mvlo, mvhi, len(TAGS))))
     return obs
